@@ -104,6 +104,14 @@ class C16(Prop):
         for _ in range(n):
             t = gen.freeze(gen.table(rng, maxrows=4, ncols=2, alphabet=[0, 1, 'a']))
             yield Case('cv_run', (rng.choice([None, None, 0, 1, 2, 3, 5]), t, _c01.random_ops(rng)))
+        # directed: a consumer peeks, another makes a full pass, the first carries on, then fresh passes; staggered starts
+        five = (('k', 'v'), (1, 'a'), (2, 'b'), (3, 'c'), (4, 'd'))
+        peek = ((0,), (1, 0), (1, 0), (0,)) + ((1, 1),) * 6 + ((1, 0),) * 5 + ((0,),) + ((1, 2),) * 6 + ((0,),) + ((1, 3),) * 6
+        stag = ((0,), (1, 0), (1, 0), (1, 0), (0,)) + ((1, 1),) * 6 + ((1, 0),) * 4 + ((0,),) + ((1, 2),) * 6
+        lock = ((0,), (0,)) + ((1, 0), (1, 1)) * 6 + ((0,),) + ((1, 2),) * 6
+        for ops in (peek, stag, lock):
+            for lim in (None, 0, 1, 2, 3, 4, 10):
+                yield Case('cv_run', (lim, five, ops))
         if tier == 'thorough':
             small = (('k', 'v'), (1, 'x'), (0, 'y'), (1, 'z'))
             for ln in range(2, 7):
